@@ -145,6 +145,8 @@ func main() {
 		cmdReexec(os.Args[2:])
 	case "seq":
 		cmdSeq(os.Args[2:])
+	case "trytrace":
+		cmdTryTrace(os.Args[2:])
 	default:
 		fmt.Fprintln(os.Stderr, "unknown command", os.Args[1])
 		os.Exit(2)
